@@ -50,7 +50,18 @@ func IntegerSquareRootPrysm(n uint64) uint64 {
 		return v
 	}
 
-	return uint64(math.Sqrt(float64(n)))
+	// float64 cannot represent every uint64: correct the rounded estimate to the exact floor.
+	x := uint64(math.Sqrt(float64(n)))
+	if x > 4294967295 {
+		x = 4294967295
+	}
+	for x*x > n {
+		x--
+	}
+	for x < 4294967295 && (x+1)*(x+1) <= n {
+		x++
+	}
+	return x
 }
 
 func IsPowerOfTwo(n uint64) bool {
